@@ -37,6 +37,10 @@ C12)
   instr $REPO/machine/filesys/dir.go=unix
   build "$W/bin" ./cmd/$LC -overlay "$W/ov.json" || exit 3
   ;;
+C13)
+  instr $REPO/machine/filesys/dir.go=unix $REPO/machine/filesys/mem.go=sync,yield,copy
+  build "$W/bin" ./cmd/$LC -overlay "$W/ov.json" || exit 3
+  ;;
 *) echo "unknown property $ID" >&2; exit 3;;
 esac
 
